@@ -93,4 +93,38 @@ lemma L_alias_order_incomparable_transitive [C09, C16]: forall l1, g1, r1, l2, g
 lemma L_alias_order_longest_first [C09]: forall l1, g1, r1, l2, g2, r2 int :: l1 > l2 ==> aliasBefore(l1, g1, r1, l2, g2, r2)
 lemma L_alias_order_concrete_first [C09]: forall l, g1, r1, g2, r2 int :: g1 < g2 ==> aliasBefore(l, g1, r1, l, g2, r2)
 lemma L_alias_order_refs_first [C09]: forall l, g, r1, r2 int :: r1 > r2 ==> aliasBefore(l, g, r1, l, g, r2)
+
+// ---- C07: failure flag protocol ----
+
+// handlerTouches(h, p): h is (or forwards to) the wrapper that raises p's errored flag
+spec handlerTouches(h ddperror.Handler, p *parser) bool
+
+// the handler wrapper installed by newParser: an error-level diagnostic raises the flag, a warning never does,
+// and the diagnostic is passed on to the user's handler exactly once
+func newParser$1 [C07]
+  requires parser != nil
+  // the handler handed to newParser existed before this parser did, so it cannot be this parser's own wrapper
+  assume !handlerTouches(errorHandler, parser)
+  ensures parser.errored == (old(parser.errored) || err.Level == ddperror.LEVEL_ERROR)
+  ensures $deliveredErr == (old($deliveredErr) || err.Level == ddperror.LEVEL_ERROR)
+
+// nobody else writes the flag (syntactic frame over the package's SSA)
+frame parser.parser.errored writers newParser newParser$1 [C07]
+
+// the module's Faulty flag is the parser's errored flag at the very end of parsing
+func (*parser).parse [C07]
+  requires p != nil && p.module != nil && p.module.Ast != nil
+  ensures result == p.module && result.Ast.Faulty == p.errored
+
+// reporting: the first error of a statement is delivered and enters panic mode; follow-ups are suppressed
+func (*parser).errVal [C07]
+  requires p != nil
+  ensures old(p.panicMode) ==> $deliveredErr == old($deliveredErr) && p.errored == old(p.errored) && p.panicMode
+  ensures !old(p.panicMode) ==> p.panicMode && $deliveredErr == (old($deliveredErr) || err.Level == ddperror.LEVEL_ERROR)
+
+// warnings are delivered but never count as failure
+func (*parser).warn [C07]
+  requires p != nil && p.module != nil
+  ensures $deliveredErr == old($deliveredErr)
+  ensures p.panicMode == old(p.panicMode)
 @*/
